@@ -138,7 +138,11 @@ def ens_validate(I, env, res):
     dir_ok = z3.And(isdir, m0["hash"].t == z3.StringVal(""))
     c4 = z3.Or(bazel, z3.And(mtime == m0["mtime"].t, path_t == m0["path"].t), quick, hash_ok, dir_ok, fgc)
     c5 = z3.Or(S_ISDIR(I.getattr(st, "st_mode").t), S_ISREG(I.getattr(st, "st_mode").t))
-    return z3.And(same_identity, c1, c2, c3, c4, c5)
+    # the record was made for the same KIND of source: a stub (.pyi) and a source file with the same
+    # text mean different things ('stubs appearing or disappearing' in the property statement)
+    pyi = z3.StringVal(".pyi")
+    c6 = z3.Or(bazel, fgc, z3.SuffixOf(pyi, path_t) == z3.SuffixOf(pyi, m0["path"].t))
+    return z3.And(same_identity, c1, c2, c3, c4, c5, c6)
 
 
 def ens_validate_frame(I, env, res):
